@@ -66,7 +66,11 @@ def _case(draw):
         # a selective decider (beside components that rarely decide) so that the matched set is usually a proper subset
         nrec = len(table["records"])
         ids = draw(st.lists(st.sampled_from(list(range(0, nrec + 1))), min_size=1, max_size=4, unique=True))
-        prog["comps"].append(["f", "in", [], [["h", "id"], ["t", "|".join(f"r{i}" for i in ids)]]])
+        decider = ["f", "in", [], [["h", "id"], ["t", "|".join(f"r{i}" for i in ids)]]]
+        if draw(st.sampled_from([False, False, True])):
+            # a decider that reads the running match count: the count is of matched lines in every return mode
+            decider = ["f", "or", [], [decider, ["==", ["f", "count", [], []], ["t", draw(st.sampled_from([1, 2, 3]))]]]]
+        prog["comps"].append(decider)
     if draw(st.sampled_from([False, False, True])):
         # print() whose second argument is a function to run after printing
         nrec = len(table["records"])
@@ -82,6 +86,9 @@ def _case(draw):
         cond = ["==", ["f", "line_number", [], []], ["t", draw(st.integers(1, nrec))]]
         act = ["f", "advance", [], [["t", draw(st.integers(1, 3))]]] if draw(st.booleans()) else ["f", "skip", [], []]
         prog["comps"].insert(draw(st.integers(0, len(prog["comps"]))), ["->", cond, act])
+    if draw(st.integers(0, 4)) == 0:
+        # the file ends with a record that is a lone whitespace or empty (quoted) cell: a record, not a blank line
+        table["records"].append([draw(st.sampled_from([" ", "", "  "]))])
     nf = draw(st.sampled_from([0, 1, 2, 2, 3, 3, 4]))
     keys = draw(st.lists(st.sampled_from(KEYS), min_size=nf, max_size=nf, unique=True))
     fields = [[k, draw(_value())] for k in keys]
